@@ -127,26 +127,26 @@ Definition xid_subtotal (b : Z) : Z := 3 * b + 2.
    an entry is (value, is_virtual) *)
 Definition values_map := list (str * (value * bool)).
 
-(* subtotal_posts::operator(): `value_t amount(post.amount)`; a new entry, or
-   add_or_set_value on the existing one - after the virtual/real mismatch test *)
+(* subtotal_posts::operator(): a new entry, or add_or_set_value on the existing one.  (Only
+   posts_as_equity - the equity command - refuses an account posted to both virtually and
+   really: /repo 58fd328; the is_virtual of an entry is that of its first posting.) *)
 Fixpoint sub_insert (k : str) (v : value) (virt : bool) (m : values_map) : res values_map :=
   match m with
   | [] => Ok [(k, (v, virt))]
   | (k', (v', virt')) :: m' =>
       match str_compare k k' with
       | Lt => Ok ((k, (v, virt)) :: m)
-      | Eq => if Bool.eqb virt virt'
-              then do s <- v_add false v' v; Ok ((k', (s, virt')) :: m')
-              else Err EOther   (* "'equity' cannot accept virtual and non-virtual postings
-                                   to the same account" *)
+      | Eq => do s <- v_add false v' v; Ok ((k', (s, virt')) :: m')
       | Gt => do r <- sub_insert k v virt m'; Ok ((k', (v', virt')) :: r)
       end
   end.
 
-(* post.amount of a posting (a compound posting has a null post.amount: not modelled) *)
+(* `value_t amount(POST_EXT_COMPOUND ? xdata.compound_value : post.amount)` (/repo 790ae5e): a
+   posting made by another subtotalling handler for a multi-commodity value counts with that value *)
 Definition post_amount (p : post) : res value :=
   match pamt p with
   | VAmt a => Ok (VAmt a)
+  | VBal b => Ok (VBal b)
   | _ => Err EBadOp
   end.
 
@@ -436,87 +436,12 @@ Definition sort_determined (ks : list (bool * skey)) (l : list post) : bool :=
   end.
 
 (* ---------------- subtotal_posts fed by another subtotalling handler (--by-payee --subtotal,
-   --dow --subtotal; the same happens behind a period option) *)
-
-(* A posting that handle_value made for a BALANCE keeps its value in xdata.compound_value
-   (POST_EXT_COMPOUND) and has a null post.amount; subtotal_posts::operator() reads
-   `value_t amount(post.amount)` all the same (filters.cc:912).  An entry of the values map is
-   then an AMOUNT holding a null amount_t (SNull) or a proper value (SVal). *)
-Inductive sub_state : Type := SNull | SVal (v : value).
-
-Definition sub2_new (p : post) : sub_state :=
-  match pamt p with
-  | VAmt a => SVal (VAmt a)
-  | _ => SNull
-  end.
-
-(* add_or_set_value(entry, amount): the entry is never a null value_t, so `entry += amount`:
-   - null AMOUNT += amount with a commodity: the commodities differ, in_place_cast(BALANCE) of a
-     null amount gives the empty balance (value.cc in_place_cast), then balance += amount;
-   - null AMOUNT += amount without commodity: amount_t += "Cannot add an amount to an
-     uninitialized amount"; null += null: "Cannot add two uninitialized amounts";
-   - proper value += null amount: "Cannot add an uninitialized amount to a(n) balance/amount" *)
-Definition sub2_add (s : sub_state) (p : post) : res sub_state :=
-  match s, pamt p with
-  | SNull, VAmt a => if has_comm a
-                     then do r <- bal_add_amt false [] a; Ok (SVal (VBal r))
-                     else Err EOther
-  | SVal v, VAmt a => do r <- v_add false v (VAmt a); Ok (SVal r)
-  | _, _ => Err EOther
-  end.
-
-Fixpoint sub2_insert (k : str) (p : post) (m : list (str * sub_state)) : res (list (str * sub_state)) :=
-  match m with
-  | [] => Ok [(k, sub2_new p)]
-  | (k', s) :: m' =>
-      match str_compare k k' with
-      | Lt => Ok ((k, sub2_new p) :: m)
-      | Eq => do s' <- sub2_add s p; Ok ((k', s') :: m')
-      | Gt => do r <- sub2_insert k p m'; Ok ((k', s) :: r)
-      end
-  end.
-
-Fixpoint sub2_feed (m : list (str * sub_state)) (l : list post) : res (list (str * sub_state)) :=
-  match l with
-  | [] => Ok m
-  | p :: l' => do m' <- sub2_insert (pacct p) p m; sub2_feed m' l'
-  end.
-
-(* handle_value for an AMOUNT entry sets post.amount, null or not; the amount expression of a
-   posting with a null post.amount is INTEGER 0 (post.cc get_amount) *)
-Definition sub2_value (s : sub_state) : value :=
-  match s with
-  | SNull => VInt 0
-  | SVal v => v
-  end.
-
+   --dow --subtotal; the same happens behind a period option): the same handler once more, on the
+   rows of the first one, multi-commodity rows counted with their whole value *)
 Definition xid_resubtotal : Z := xid_subtotal (-1).
 
 Definition resubtotal (l : list post) : res (list post) :=
-  match l with
-  | [] => Ok []
-  | _ => do m <- sub2_feed [] l;
-         Ok (map (fun e => mkPost xid_resubtotal (range_start l) (range_finish l)
-                                  (PUntil (range_finish l)) (PUntil (range_finish l)) (fst e)
-                                  false 0 (sub2_value (snd e))) m)
-  end.
-
-(* POST_VIRTUAL of a row made by day_of_week_posts: flush() feeds and reports one weekday after
-   the other, and handle_value marks the row virtual while the account has ACCOUNT_EXT_AUTO_VIRTUALIZE
-   without ACCOUNT_EXT_HAS_NON_VIRTUALS - i.e. while no real posting to that account has been fed,
-   which means: none on this weekday or an earlier one (Sunday first).  (by_payee_posts feeds every
-   posting before it reports anything: all rows of an account carry the same flag.)  subtotal_posts
-   behind it refuses an account whose rows differ in that flag (filters.cc:917-920). *)
-Definition dow_row_virtual (l : list post) (r : post) : bool :=
-  match ppayee r with
-  | PDow k => negb (existsb (fun p => negb (pvirt p) && str_eqb (pacct p) (pacct r)
-                                      && (day_of_week (pdate p) <=? k)) l)
-  | _ => false
-  end.
-
-Definition dow_rows_consistent (l rows : list post) : bool :=
-  forallb (fun r1 => forallb (fun r2 => negb (str_eqb (pacct r1) (pacct r2))
-                                        || Bool.eqb (dow_row_virtual l r1) (dow_row_virtual l r2)) rows) rows.
+  subtotal_group (fun c => PUntil (range_finish c)) xid_resubtotal l.
 
 (* ------------------------------------------------------------------------ calc_posts *)
 
@@ -604,8 +529,7 @@ Definition stage_group (g : grouping) (l : list post) : res (list post) :=
   | GByPayee => by_payee l
   | GDow => day_of_week_posts l
   | GByPayeeSub => do r <- by_payee l; resubtotal r
-  | GDowSub => do r <- day_of_week_posts l;
-               if dow_rows_consistent l r then resubtotal r else Err EOther
+  | GDowSub => do r <- day_of_week_posts l; resubtotal r
   end.
 
 Definition stage_collapse (c : option Z) (l : list post) : res (list post) :=
